@@ -54,6 +54,10 @@ CHECKS.update({
                 technique="runtime monitoring: every template is sealed and run through the node's own full verification on a dropped store transaction; a fraction is mined on the node and on a second node",
                 text="Templates requested after every pool/chain operation are converted exactly as the miner does, sealed, and run through HeaderVerifier, BlockVerifier, NonContextualBlockTxsVerifier and ContextualBlockVerifier (non-committing) on the node itself; size/cycle limits, parents-first order and in-window proposals are checked structurally; ~45% are mined: the node and a second node must accept them.",
                 note=POOL_NOTE),
+    "C08": dict(engine="crash", category="fault_enumeration", design="4/C08",
+                technique="runtime monitoring under injected faults: process death at every durable write (hook H2) in child processes, recovery through the production open path, dumps judged by RefChain",
+                text="For generated histories (forks, invalid blocks, orphan and duplicate arrival) a child process importing the history is killed immediately before / after its k-th durable write (transaction commit or batch write), for every k in the thorough tier (every 5th in quick) plus sampled second crashes during recovery; a recovery child reopens the database through SharedBuilder::new (migration check, InitLoadUnverified), dumps, redelivers everything and dumps again. Oracles: reopen succeeds, the recovered state equals a replay of the reported tip's chain (all C02 columns), the tip is a delivered valid block, no stored block with a judged parent is left unverified, after redelivery the tip is in the arg-max set and equals the uncrashed baseline when unique.",
+                note="Trusted: RocksDB WAL atomicity (a crash is modelled as process death before/after a durable write, not a torn write inside RocksDB). Which thread performs write k depends on real scheduling; every observed recovery is judged on its own."),
     "C15": dict(engine="codec", category="exploration", design="4/C15",
                 technique="runtime monitoring: differential against an independent molecule implementation and hash definitions (oracles/molecule.py) over schema-driven values and mutations",
                 text="Schema-driven random values and single-field/byte/offset mutations for all 127 packed types: strict/compatible acceptance must agree with the independent validator, accepted bytes must be reproduced by a field-by-field rebuild, packed<->JSON round trips, every hash recomputed by the Python oracle from its own parse, cached hashes of views built through every constructor path.",
@@ -89,6 +93,8 @@ engines = [
      "kind_free_text": "real nodes + builder node + RefChain model; hooks H1/H3"},
     {"name": "arith", "path": "harness/varith", "serves_properties": ["C07"],
      "kind_free_text": "API driver + oracles/arith.py exact oracle; harness-miri/arith"},
+    {"name": "crash", "path": "harness/vmon/src/engines/crash.rs", "serves_properties": ["C08"],
+     "kind_free_text": "parent + crash/recovery child processes; hook H2 (ckb-db durable write counter / abort)"},
     {"name": "pool", "path": "harness/vmon/src/engines/pool.rs", "serves_properties": ["C11", "C12", "C13"],
      "kind_free_text": "real tx-pool service + builder node + RefChain; hook H5"},
     {"name": "codec", "path": "harness/vcodec", "serves_properties": ["C15", "C16"],
